@@ -132,6 +132,11 @@ def ob_extract(sysname):
         cb = convert_hs(L.hs, c.basis(), c.comp_basis())
         parts_c = L.calc_h_part("comp_basis") + L.calc_j_part("comp_basis") + L.calc_k_part("comp_basis")
         out.append(Eq("parts sum to the whole (computational basis)", parts_c, cb, 1e-7))
+        # the SAME object asked for every part in the other basis mode afterwards, and back: the mode argument decides, not the first call
+        out.append(Eq("d_part (computational basis, after the Hermitian-basis call) == j_part + k_part in that basis",
+                      L.calc_d_part("comp_basis"), L.calc_j_part("comp_basis") + L.calc_k_part("comp_basis"), 1e-7))
+        out.append(Eq("d_part (Hermitian basis again) unchanged", L.calc_d_part(), L.calc_j_part() + L.calc_k_part(), 1e-7))
+        out.append(Eq("h_part (Hermitian basis again) + d_part == generator", L.calc_h_part() + L.calc_d_part(), L.hs, 1e-7))
         return out
     return FnOb(herm_inputs("h", d) + herm_inputs("k", n - 1), run, max_paths=20)
 
